@@ -1,5 +1,6 @@
 import GaeaVerif.Sexp
 import GaeaVerif.Model.Crash
+import GaeaVerif.Drv.C38Own
 import GaeaVerif.Gen.Consts
 /-
   Driver for C38.  Requests (see harness/props/c38.go for the input forms):
@@ -7,6 +8,7 @@ import GaeaVerif.Gen.Consts
     m (chk <resp> <enc>)
     m (sess <db> (<payload> …))
     m (proc …)            same cases as seen over TCP by a client (thorough tier)
+    m (own <plugin> (<op> …))   several sessions sharing the packet buffer pool (Drv/C38Own.lean)
     s <request> <implementation output>   property oracle on an implementation output
   The variant flags and the recover facts come from the translator
   (GaeaVerif.Gen, regenerated from the source on every run).
@@ -32,6 +34,7 @@ def tagName : ErrTag → String
   | .malform => "malform" | .flag => "flag" | .ftype => "ftype" | .datelen => "datelen" | .dtlen => "dtlen"
   | .timelen => "timelen" | .lenenc => "lenenc" | .nodbname => "nodbname" | .unknowncmd => "unknowncmd"
   | .longtype => "longtype" | .nostmt => "nostmt" | .wrongargs => "wrongargs" | .nodb => "nodb"
+  | .floatval => "floatval"
 
 def fmtResp : Resp → String
   | .none => "none" | .ok => "ok" | .eof => "eof" | .q => "q" | .fl => "fl"
@@ -184,6 +187,13 @@ def oracle (req out : Sexp) : String :=
 
 def handle (args : List Sexp) : String :=
   match args with
+  | [.atom "m", .list (.atom "own" :: r)] =>
+    let req := Sexp.list (.atom "own" :: r)
+    let out := C38Own.model req
+    match Sexp.parseLine out with
+    | some [o] => out ++ " | " ++ C38Own.oracle req o
+    | _ => out
+  | [.atom "s", .list (.atom "own" :: r), out] => C38Own.oracle (.list (.atom "own" :: r)) out
   | [.atom "m", req] =>
     let out := model req
     match Sexp.parseLine out with
